@@ -68,6 +68,13 @@ theorem C04_no_retraction (t : OpTable) (hs : SizeOK t) (h h' : List Ev) (hb : B
   rw [l]
   exact e.1.trans (List.prefix_append _ _)
 
+/-- `written`, the field the other statements speak about, is nothing but the
+concatenation of the payloads of the history's write events, in order — so
+`C04_lossless` and `C04_exhausted` are statements about the caller's bytes. -/
+theorem C04_written (t : OpTable) (h : List Ev) : (run t h).written = writesOf h := by
+  have := Disasm.foldl_written t h {}
+  simpa [run] using this
+
 /-- The hypothesis `SizeOK` holds for the regenerated Cancun table (the fork the
 disassembler uses). -/
 theorem sizeOK_cancun : SizeOK Gen.cancun := Disasm.sizeOK_of_tableOK Ops.cancun_tableOK
